@@ -155,7 +155,10 @@ static void receive_snoop (char *buf, object_t * snooper) {
 
   /* command giver no longer set to snooper */
   copy_and_push_string (buf);
-  apply (APPLY_RECEIVE_SNOOP, snooper, 1, ORIGIN_DRIVER);
+  /* The snooper's object is called from inside add_message() and get_user_data() of the
+   * snooped connection: an error in it must not end the snooped user's evaluation or
+   * leave that connection's input half processed. */
+  safe_apply (APPLY_RECEIVE_SNOOP, snooper, 1, ORIGIN_DRIVER);
 }
 
 /**
